@@ -116,7 +116,7 @@ def check(rep, pid, tier, seed):
         if tr and len(tr[-1][1]["prog"]) >= 2:
             sims.append(parse_prog(tr[-1][1]["prog"]))
     allp = d1 + d2 + pick3 + sims
-    rep.extra["programs"] = dict(depth1=len(d1), repeat=len(d2), pattern3=len(pick3), pattern3_enumerated=len(d3), simulated=len(sims))
+    rep.extra["program_counts"] = dict(depth1=len(d1), repeat=len(d2), pattern3=len(pick3), pattern3_enumerated=len(d3), simulated=len(sims))
     tasks = [dict(prog=p, tid=i + 1) for i, p in enumerate(allp)]
     records = [None] * len(tasks)
     for k, status, out in pool.run_tasks(_run, tasks, init=_init, task_timeout=600):
